@@ -39,9 +39,12 @@ func drawRuntimeScript(t *Tape, T time.Duration) ([]Op, bool) {
 		case 12:
 			ops = append(ops, Op{Kind: "exit", N: []int{0, 1, KillSignal, -11}[t.Draw(4)]})
 		case 13:
-			if t.Chance(1, 2) {
+			if k := t.Draw(3); k == 0 {
 				// uploads half of the body and then nothing more (the process lives on)
 				ops = append(ops, Op{Kind: "stalled-upload", Arg: []string{"response", "error"}[t.Draw(2)]})
+			} else if k == 1 {
+				// uploads half of the body on a second connection and polls for the next invocation meanwhile
+				ops = append(ops, Op{Kind: "upload-then-next"})
 			} else {
 				ops = append(ops, Op{Kind: "truncated-response", Arg: "cur", N: 1})
 			}
